@@ -148,6 +148,12 @@ func (l *listener) Close() error {
 	}
 	l.closed = true
 	close(l.ch)
+	// Connections that were established but not yet accepted are reset when a listening socket
+	// is closed: their dialler's next read ends. (Left open they would pin the dialler's
+	// handshake for ever - something no operating system does to a loopback connection.)
+	for c := range l.ch {
+		_ = c.Close()
+	}
 	l.w.mu.Lock()
 	if l.w.listeners[l.port] == l {
 		delete(l.w.listeners, l.port)
